@@ -21,7 +21,10 @@ Inductive op :=
 | OSetAttr (name : string)                       (* obj.name = value *)
 | OSetFields (names : list string) (overwrite : bool)
 | OUnsetFields (names : list string)
-| OReplace (changes : list string).              (* apischema.dataclasses.replace(obj, **changes) *)
+| OReplace (changes : list string)               (* apischema.dataclasses.replace(obj, **changes) *)
+| OAlloc                                         (* cls.__new__(cls): what a subclass overriding __init__ starts from *)
+| OInit (nargs : nat) (kwargs : list string).    (* the tracked __init__ called on an existing object (super().__init__(...)
+                                                    after the subclass assigned attributes, or obj.__init__(...) again) *)
 
 (* new_init: FIELDS_SET_ATTR is emptied, old_init runs (each assignment goes through new_setattr and is recorded),
    then the attribute is overwritten by prev | arg_fields | post_init_fields *)
@@ -45,6 +48,8 @@ Definition step (c : cls) (fs : list string) (o : op) : list string :=
          then set_fields (result, fields_set obj, changes, overwrite=True) *)
       let _new := init c [] 0 (union (init_fields c) changes) in
       union (union [] fs) (diff changes (init_vars c))
+  | OAlloc => []                                                 (* new_new: FIELDS_SET_ATTR = set() *)
+  | OInit nargs kwargs => init c fs nargs kwargs                 (* new_init: prev_fields_set = what was set before *)
   end.
 
 Definition run (c : cls) (ops : list op) : list string := fold_left (step c) ops [].
@@ -58,6 +63,8 @@ Definition doc_step (c : cls) (fs : list string) (o : op) : list string :=
   | OSetFields names false => union fs names
   | OUnsetFields names => diff fs names
   | OReplace changes => union fs (diff changes (init_vars c))
+  | OAlloc => []
+  | OInit nargs kwargs => union fs (union (diff (union (firstn nargs (params c)) kwargs) (init_vars c)) (post_init c))
   end.
 
 (* deserialize(T, d): the constructor is called with one keyword per key present in the data *)
